@@ -21,8 +21,9 @@ def run(chk, replay=None):
     def long_line(n, tag):
         vals = ','.join('"v%s%05d"' % (tag, i) for i in range(max(1, (n - 200) // 11)))
         return ('{"t":{"$date":"2020-01-01T00:00:00.000+00:00"},"s":"I","c":"COMMAND","id":51803,"ctx":"conn%s","msg":"Slow query","attr":{"ns":"mydb.users","command":{"find":"users","filter":{"f%s":{"$in":[%s]}},"$db":"mydb"}}}' % (tag, tag, vals)).encode()
-    longs = [long_line(n, t) for n, t in ((4200, 'a'), (5000, 'b'), (9000, 'c'), (17000, 'd'), (33000, 'e'), (60000, 'f'), (65000, 'g'))]
-    logs += [[longs[0], pool[0], longs[1], longs[2]], [longs[3], longs[4]], [pool[1], longs[5], pool[2], longs[3], longs[1]], [longs[6], pool[0]], [longs[2], b'', longs[2], b'not json', longs[4]]]
+    LIM = streams.line_limit() or (1 << 20)      # measured on the compiled program
+    longs = [long_line(min(n, LIM - 300), t) for n, t in ((4200, 'a'), (5000, 'b'), (9000, 'c'), (17000, 'd'), (33000, 'e'), (60000, 'f'), (65000, 'g'))] + ([long_line(LIM - 300, 'h')] if LIM > 70000 else [])
+    logs += [[longs[0], pool[0], longs[1], longs[2]], [longs[3], longs[4]], [pool[1], longs[5], pool[2], longs[3], longs[1]], [longs[6], pool[0]], [longs[2], b'', longs[2], b'not json', longs[4]], [pool[3], longs[-1]]]
     # families of near-duplicate lines (same planCacheKey / queryHash / ctx, one member different), in both orders and with repetitions
     from vlib import gen as _gen
     logs += _gen.family_logs()[:: (1 if th else 2)]
@@ -121,6 +122,11 @@ def run(chk, replay=None):
                 if rc != 0 or so != want:
                     chk.violate('CLI (stdin -> stdout) under a flag combination differs from the line-local map under that configuration', {'flags': cfgp.cli_flags('KEYFILE'), 'rc': rc, 'stderr': se[-200:].decode('utf-8', 'replace')}, tags=['cli', 'flags'])
     chk.streams.append({'stream': 'CLI flag wiring: pairwise flag combinations x {file -> file, stdin -> stdout} vs the in-process stream processor', 'lines': len(wl)})
+    # the whole command (Model/Job.v: main.go's Run end to end) against the CLI on small worlds: exit status, file system and standard output
+    from vlib import joblib
+    jrng = random.Random(chk.seed * 7919 + 606)
+    jpool = [l for l, _ in streams.grammar_lines(jrng, 25, 0.1) + streams.fixture_lines()[:8]]
+    joblib.correspondence(chk, jrng, 240 if chk.tier == 'thorough' else 100, jpool)
     chk.sample({'log': [l.decode('utf-8', 'replace')[:160] for l in logs[3]]})
     chk.assumptions += ["that file, gzip and stdin feed the same bytes to the same loop, and that stdout and --outputFile receive the same bytes, is code structure + OS behaviour: covered by the CLI stream, not by the theorem",
                         "CRLF equivalence is claimed for lines that do not themselves end in CR"]
